@@ -308,3 +308,108 @@ pub mod timescale {
         }
     }
 }
+
+pub mod tv {
+    //! C15 / C16 controls: a macro use and a builder chain that do NOT agree.
+    use mina::prelude::*;
+
+    #[derive(Animate, Clone, Debug, Default, PartialEq)]
+    pub struct Tv {
+        pub x: f32,
+    }
+
+    #[derive(Clone, Debug, Default, Eq, PartialEq, State)]
+    pub enum TvState {
+        #[default]
+        A,
+        B,
+    }
+
+    pub fn ctl_timeline_macro() -> TvTimeline {
+        timeline!(Tv 2s after 1s to { x: 1.0 })
+    }
+
+    pub fn ctl_timeline_ref() -> TvTimeline {
+        // control: delay and duration swapped
+        Tv::timeline().duration_seconds(1.0).delay_seconds(2.0).keyframe(Tv::keyframe(1.0).x(1.0)).build()
+    }
+
+    pub fn ctl_animator_macro() -> EnumStateAnimator<TvState, TvTimeline> {
+        animator!(Tv { default(TvState::A, { x: 1.0 }), TvState::A | TvState::B => 1s to { x: 2.0 } })
+    }
+
+    pub fn ctl_animator_ref() -> EnumStateAnimator<TvState, TvTimeline> {
+        // control: state B missing
+        let default_values: Tv = Tv { x: 1.0 };
+        StateAnimatorBuilder::new()
+            .from_state(TvState::A)
+            .from_values(default_values.clone())
+            .on(TvState::A, Tv::timeline().duration_seconds(1.0).keyframe(Tv::keyframe(1.0).x(2.0)))
+            .build()
+    }
+}
+
+pub mod gen {
+    //! C08 / C09 / C17 controls: hand-written "generated" code with seeded defects:
+    //!  * update writes a field that is not animated, and reads the target (C08/R1, C09/R2)
+    //!  * start_with skips a field (C09/R4, C17/G6)
+    use mina::prelude::*;
+    use mina::{prepare_frame, SubTimeline, TimeScale};
+
+    #[derive(Clone, Debug, Default, PartialEq)]
+    pub struct Ctl {
+        pub x: f32,
+        pub y: f32,
+        pub other: u8,
+    }
+
+    #[derive(Clone, Debug)]
+    pub struct CtlTimeline {
+        boundary_times: Vec<f32>,
+        timescale: TimeScale,
+        t_x: SubTimeline<f32>,
+        t_y: SubTimeline<f32>,
+    }
+
+    impl Timeline for CtlTimeline {
+        type Target = Ctl;
+
+        fn cycle_duration(&self) -> Option<f32> {
+            Some(self.timescale.get_cycle_duration())
+        }
+
+        fn delay(&self) -> f32 {
+            self.timescale.get_delay()
+        }
+
+        fn duration(&self) -> f32 {
+            self.timescale.get_duration()
+        }
+
+        fn repeat(&self) -> Repeat {
+            self.timescale.get_repeat()
+        }
+
+        fn start_with(&mut self, values: &Self::Target) {
+            self.t_x.override_start_value(values.x);
+            // control: t_y is not started from the given values
+        }
+
+        fn update(&self, target: &mut Self::Target, time: f32) {
+            let Some((normalized_time, frame_index, enable_start_override)) =
+                prepare_frame(time, self.boundary_times.as_slice(), &self.timescale)
+            else {
+                return;
+            };
+            if let Some(x) = self.t_x.value_at(normalized_time, frame_index, enable_start_override) {
+                target.x = x;
+            }
+            if let Some(y) = self.t_y.value_at(normalized_time, frame_index, enable_start_override) {
+                // control: depends on the previous contents of the target
+                target.y = y + target.x;
+            }
+            // control: a field that is not animated is overwritten
+            target.other = 0;
+        }
+    }
+}
